@@ -22,6 +22,9 @@ NA = {
     "C10": "needs the collector and every engine Trace impl under the solver; GcBox::new does not compile under Kani 0.68 (DESIGN.md §2.3)",
     "C16": "SimpleJobExecutor, reaction jobs and the budgeted run loop all execute through Context and Gc-allocated promises; not encodable (DESIGN.md §5)",
     "C17": "the module SCC state machine is stored in Gc module records and driven through promises/Context; not encodable (DESIGN.md §5)",
+    "C14": "attempted and withdrawn: IndexedProperties::insert/remove/push_dense (the only Context-free kernel of array storage) keep ThinVec<JsValue> collection, FxHashMap conversion and PropertyDescriptor clone/drop glue in every path; CBMC symbolic execution did not finish within 15 min even for an empty packed-int array with a concrete key (harness kept under harness_unused/); everything else (array exotic object, Array.prototype.*) needs Context and the GC heap (DESIGN.md §9.7)",
+    "C18": "attempted and withdrawn: QuoteJSONString (the only Context-free kernel of JSON) grows a Vec<u16> and allocates heap JsStrings with symbolic lengths; CBMC symbolic execution did not finish within 15 min even for 1-code-unit strings (harness kept under harness_unused/), and JSON.parse / the object serialisers need Context and the GC heap (DESIGN.md §9.7)",
+    "C19": "not attempted within this technique's reach: every lexer/parser entry point interns through boa_interner (220 s per get_or_intern under CBMC, or an ICE without the thread_cleanup stub) and builds a heap AST; the printer/re-parser needs the same; no kernel of parse totality or print/parse idempotence is separable at useful bounds (DESIGN.md §2.3, §9.7)",
     "C20": "a statement about two whole-engine runs and realm heaps; no kernel of it is separable for a solver (DESIGN.md §5)",
 }
 
@@ -234,29 +237,6 @@ PROPS["C13"] = {
     },
 }
 
-PROPS["C18"] = {
-    "level": "model_checking",
-    "kani": [{"package": "boa_engine", "flags": ENGINE_FLAGS, "tags": ["c18a"], "timeout": {"quick": 900, "thorough": 1800}}],
-    "assumptions": COMMON_ASSUME + [
-        "StaticJsStrings::get_string is stubbed to None (the well-known-string canonicalisation is an optimisation; the generic heap string path is the one under test)",
-    ],
-    "outside_claim": [
-        "JSON.parse in its entirety (serde_json pre-validation ∩ the JS parser, reviver, source-text tracking)",
-        "SerializeJSONProperty/Object/Array: toJSON, replacer, indent, number formatting, cycle detection (need Context and the heap)",
-        "strings longer than the stated bounds",
-    ],
-    "trusted_base": ["code-unit reference model of QuoteJSONString in the harness"],
-    "manifest": {
-        "text": "Kernel-level claim. Bounded model checking of QuoteJSONString, the routine that produces every string and property key in "
-                "JSON.stringify output: for ALL strings of 1 and 2 (3 in the thorough tier) UTF-16 code units over the full 16-bit alphabet "
-                "the output equals, unit by unit, an independent code-unit model of ECMA-262 25.5.2.2 (short escapes, lower-case \\u00xx for "
-                "control characters, \\udxxx for lone surrogates, pairs verbatim). JSON.parse and the object/array serialisers are NOT decided.",
-        "note": "Trusted: Kani/CBMC, the get_string stub, the harness model. Outside: JSON.parse, replacer/indent/toJSON, number formatting.",
-        "technique": "bounded model checking of the compiled Rust (Kani/CBMC, SAT) vs code-unit reference model",
-        "design_ref": "DESIGN.md §4 C18",
-    },
-}
-
 
 def _c05_engine(*a, **k):
     import c05
@@ -289,3 +269,47 @@ PROPS["C05"] = {
         "design_ref": "DESIGN.md §4 C05",
     },
 }
+
+
+def _c02_gen(tier):
+    g = _c03_gen(tier)
+    # re-tag the generated C03(a) harnesses: they already carry props=C03,C02
+    return g
+
+
+PROPS["C02"] = {
+    "level": "model_checking",
+    "kani": [
+        {"package": "boa_gc", "flags": [], "tags": ["c09a", "c09b"]},
+        {"package": "boa_engine", "flags": ENGINE_FLAGS, "tags": ["model", "c01a", "c01d", "c01e", "c15a", "c13a", "c03r", "c12a"],
+         "generate": _c02_gen,
+         "names": {"quick": ["h01a_add_sub", "h01a_rem_total", "h01a_div_special", "h01a_bitwise_shift", "h01a_compare_int",
+                             "h01a_divrem_by_m1", "h01a_divrem_by_min", "h01a_mul_by_m1", "h01a_mul_by_min", "h01b_compare_mixed",
+                             "h01d_to_int32", "h01e_number_relations", "h01e_number_not",
+                             "h15a_to_int8", "h15a_to_uint8", "h15a_to_int16", "h15a_to_uint16", "h15a_to_i32", "h15a_to_u32", "h15a_to_uint8_clamp",
+                             "h13a_digits_r10", "h13a_digits_r36", "h13a_exact_r16_n16", "h13a_exact_r32_n22",
+                             "h03r_alloc", "h03r_dealloc", "h03r_finish", "h03a_opcode_decode_total", "h03a_patch_jump",
+                             "h03a_rt_jump_table_n2", "h03a_rt_template_create_n2", "h12a_i32_kind", "h12a_f64_kind", "h12a_prims"]}},
+        {"package": "boa_string", "flags": [], "tags": ["c11a", "c11c"],
+         "names": {"quick": ["h11c_access", "h11c_search_h8_n16_3_2_f0", "h11c_search_h16_n8_2_0_f2", "h11c_search_h8_n8_1_2_f0"]}},
+    ],
+    "assumptions": COMMON_ASSUME + [
+        "panic-freedom is decided per harnessed kernel over that harness' input domain (the kernel's full type domain unless the harness states a precondition no caller can violate); Kani instruments every reachable panic!, unwrap/expect, unreachable!, arithmetic overflow, slice index, pointer dereference and debug_assert!",
+    ],
+    "outside_claim": [
+        "every panic site that needs a Context, a Gc allocation, the parser proper or the VM dispatch loop: e.g. the stale inline-cache index and the recursion-limit EnginePanic quoted in the property are NOT reachable by this check",
+        "arbitrary byte strings as source text (lexer/parser totality): the interner and the heap AST are not encodable at useful bounds",
+    ],
+    "trusted_base": [],
+    "manifest": {
+        "text": "Kernel-level claim. The harnesses of C01, C03(a), C09, C11, C12, C13, C15 are re-read with the acceptance rule 'no panic, "
+                "overflow, out-of-bounds index, failed unwrap/expect, unreachable! or debug_assert! located in /repo code may fail for ANY "
+                "input of the harness domain' (Kani instruments all of them); this is the rule that exposed `i32::MIN % -1`. "
+                "The quick tier runs a fixed subset (≈ 45 kernels), the thorough tier every harness tagged C02. Source-text level "
+                "totality (lexer, parser, compiler, VM) is NOT decided.",
+        "note": "Trusted: Kani/CBMC instrumentation of panics and arithmetic checks. Outside: anything that needs Context, the GC heap, the parser or the VM loop.",
+        "technique": "bounded model checking of the compiled Rust (Kani/CBMC, SAT): reachability of every panic/overflow/bounds check over full input domains",
+        "design_ref": "DESIGN.md §4 C02",
+    },
+}
+
